@@ -189,6 +189,11 @@ class C05(Spec):
             c = {'kind': 'seq', 'shapes': shapes, 'flat': flat, 'idx': ix}
             if ix['t'] == 'arr' and rng.random() < 0.5:
                 c['try_slice'] = True
+            # index arrays of OpenMDAO's own INT_DTYPE (int32) and caller-owned arrays re-used for a new indexer
+            if rng.random() < 0.5:
+                c['dtype'] = 'i4'
+            if rng.random() < 0.4:
+                c['fresh'] = True
             if in_model_grammar(ix) and not c.get('try_slice'):
                 cases.append(c)
             else:
